@@ -46,3 +46,14 @@ func (ctrler *StakeCtrler) VerifLimiterState() string {
 	}
 	return sb.String()
 }
+
+// VerifCloseLeaked closes the stores that Close() leaves open (so that a harness can run
+// many application instances in one process).
+func (ctrler *StakeCtrler) VerifCloseLeaked() {
+	if ctrler.rewardLedger != nil {
+		_ = ctrler.rewardLedger.Close()
+	}
+	if ctrler.rwdHashDB != nil {
+		_ = ctrler.rwdHashDB.Close()
+	}
+}
